@@ -203,6 +203,9 @@ func (s *stream) eval(text, origin string) {
 		}
 	}
 	run.Add("distinct_texts", 1)
+	if run.Get("evaluations")%resetEvery == 0 {
+		parser.VerifResetPredictionCaches() // bounds the memory of ANTLR's process-wide prediction caches
+	}
 	if nonBlank >= 2 {
 		run.Add("distinct_nontrivial", 1)
 	}
@@ -243,6 +246,9 @@ func seqs(alpha []string, maxLen int, f func(string)) {
 	}
 	rec("", 0)
 }
+
+// resetEvery is the number of evaluations after which ANTLR's prediction caches are dropped (overlay accessor in cypher/parser).
+const resetEvery = 50000
 
 func main() {
 	if spec := os.Getenv("VERIF_C08_FAMILY"); spec != "" {
